@@ -179,8 +179,26 @@ Qed.
 (* ---------- nodes ---------- *)
 Variable pmatch : bytes -> bytes -> bool.
 Variable c : cfg.
-Notation cnode := (copy_node pmatch c).
-Notation cforest := (copy_forest pmatch c).
+Variable repl : bool.
+Notation cnode := (copy_node pmatch c repl).
+Notation cforest := (copy_forest pmatch c repl).
+
+(* on a compatible destination always-replace removes nothing but non-directories that are
+   about to be re-created *)
+Lemma rm_dir_noop fs st ct (x : dfs) : compat fs -> In (st, ct) all -> st_is_dir st = true ->
+  remove_target (st_path st) true (fs (st_path st)) x = x.
+Proof.
+  intros HG Hin Hd. unfold remove_target. destruct (fs (st_path st)) as [o|] eqn:E; [|reflexivity].
+  rewrite (HG (st, ct) o Hin E). cbn [fst]. rewrite Hd. reflexivity.
+Qed.
+
+Lemma rm_nondir_cases fs st ct (x : dfs) : compat fs -> In (st, ct) all -> st_is_dir st = false ->
+  remove_target (st_path st) false (fs (st_path st)) x = x \/
+  remove_target (st_path st) false (fs (st_path st)) x = fdel (st_path st) x.
+Proof.
+  intros HG Hin Hd. unfold remove_target. destruct (fs (st_path st)) as [o|] eqn:E; [|left; reflexivity].
+  right. cbn [andb]. unfold remove_all. rewrite (HG (st, ct) o Hin E). cbn [fst]. rewrite Hd. reflexivity.
+Qed.
 
 Record inv (S : list pdir) (dir : bytes) (fs : dfs) : Prop := {
   inv_items : items_ok S;
@@ -255,7 +273,7 @@ Proof.
   induction n as [name st0 ct kids IHk] using node_ind2.
   intros Hwfn dir pinc pexc S fs fs' S' em err H Hall HI.
   apply wf_tree_node_inv in Hwfn. destruct Hwfn as (Hne & Hns & Hdk & _ & Hkids).
-  rewrite copy_node_eq in H. cbv zeta in H.
+  rewrite copy_node_eq_r in H. cbv zeta in H.
   set (p := child_path dir name) in *.
   set (incl := fst (sel_inc pmatch c p pinc) && negb (fst (sel_exc pmatch c p pexc))) in *.
   assert (Hself : In (set_path st0 p, ct) all) by (apply Hall; rewrite walk_node_eq; left; reflexivity).
@@ -267,8 +285,12 @@ Proof.
     destruct (create_parents_succeeds S [] dir _ _ _ _ _ E1 H1 H2 H3 H4 H5) as (-> & Hx1 & Ha1 & Hdir1).
     destruct (create_parents_ok _ _ _ _ _ (Forall_impl _ (fun d (X : item_ok d) => proj2 X) H1) E1) as (-> & _ & _).
     pose proof (ext_compat _ _ H5 Hx1) as HG1.
+    rewrite andb_true_r in H.
     destruct (st_is_dir st0) eqn:Ed.
-    + destruct (copy_dir_only_ok dir (set_path st0 p) ct fs1 Hself Ed HG1 Hdir1) as (fs2 & cr & E2 & Hx2 & Hk2 & _ & _).
+    + assert (Hrm : (if repl then remove_target p true (fs p) fs1 else fs1) = fs1).
+      { destruct repl; [|reflexivity]. exact (rm_dir_noop fs (set_path st0 p) ct fs1 H5 Hself Ed). }
+      rewrite Hrm in H. clear Hrm.
+      destruct (copy_dir_only_ok dir (set_path st0 p) ct fs1 Hself Ed HG1 Hdir1) as (fs2 & cr & E2 & Hx2 & Hk2 & _ & _).
       cbn [st_path set_path] in E2, Hk2. rewrite E2 in H.
       set (d := {| pd_st := set_path st0 p; pd_ct := ct; pd_dir := dir; pd_copied := true |}) in *.
       destruct (cforest p kids _ _ (mark S ++ [d]) fs2) as [[[fs3 S3] em3] e3] eqn:E3.
@@ -296,19 +318,42 @@ Proof.
     + cbn [negb] in H.
       assert (Hdp : parent_ok dir (fdel p fs1) = true).
       { unfold parent_ok, fdel. unfold p. rewrite child_ne_dir by exact Hne. exact Hdir1. }
-      destruct (fs1 p) as [o|] eqn:Ep.
-      * pose proof (HG1 _ o Hself Ep) as Ho. cbn [fst] in Ho. change (st_is_dir (set_path st0 p)) with (st_is_dir st0) in Ho.
-        rewrite Ed in Ho. rewrite Ho in H. rewrite Hdp in H. inversion H; subst; clear H.
-        assert (Hx2 : ext fs1 (fput p (set_path st0 p, ct) (fdel p fs1))).
-        { intros q. rewrite fput_at. unfold fdel. destruct (bytes_eqb q p) eqn:Eq; [|left; reflexivity].
-          apply bytes_eqb_eq in Eq. subst q. right. exists (set_path st0 p, ct), (set_path st0 p, ct). auto. }
-        repeat split; auto. { eapply ext_trans; eauto. }
-        right. split; [reflexivity|]. eapply exist_all_ext; eauto.
-      * rewrite Hdir1 in H. inversion H; subst; clear H.
-        assert (Hx2 : ext fs1 (fput p (set_path st0 p, ct) fs1)) by (eapply ext_put; eauto).
-        repeat split; auto. { eapply ext_trans; eauto. }
-        right. split; [reflexivity|]. eapply exist_all_ext; eauto.
+      assert (Hx2 : ext fs1 (fput p (set_path st0 p, ct) (fdel p fs1))).
+      { intros q. rewrite fput_at. unfold fdel. destruct (bytes_eqb q p) eqn:Eq; [|left; reflexivity].
+        apply bytes_eqb_eq in Eq. subst q. right. exists (set_path st0 p, ct), (set_path st0 p, ct). auto. }
+      assert (Hfin : forall X, X = fs1 \/ X = fdel p fs1 ->
+                (match (match X p with
+                        | Some e => if e_dir e then None else Some (fdel p X)
+                        | None => Some X
+                        end) with
+                 | None => (X, mark S, em1, Some ENondirOverDir)
+                 | Some fs2 => if parent_ok dir fs2
+                               then (fput p (set_path st0 p, ct) fs2, mark S, em1 ++ [{| l_st := set_path st0 p; l_ct := ct; l_sel := true |}], None)
+                               else (fs2, mark S, em1, Some ENoParent)
+                 end) = (fs', S', em, err) ->
+                err = None /\ ext fs fs' /\ after S S' fs').
+      { intros X [->| ->] HX.
+        - destruct (fs1 p) as [o|] eqn:Ep.
+          + pose proof (HG1 _ o Hself Ep) as Ho. cbn [fst] in Ho. change (st_is_dir (set_path st0 p)) with (st_is_dir st0) in Ho.
+            rewrite Ed in Ho. rewrite Ho in HX. rewrite Hdp in HX. inversion HX; subst; clear HX.
+            repeat split; auto. { eapply ext_trans; eauto. }
+            right. split; [reflexivity|]. eapply exist_all_ext; eauto.
+          + rewrite Hdir1 in HX. inversion HX; subst; clear HX.
+            assert (Hx3 : ext fs1 (fput p (set_path st0 p, ct) fs1)) by (eapply ext_put; eauto).
+            repeat split; auto. { eapply ext_trans; eauto. }
+            right. split; [reflexivity|]. eapply exist_all_ext; eauto.
+        - assert (Enone : fdel p fs1 p = None) by (unfold fdel; rewrite bytes_eqb_refl; reflexivity).
+          rewrite Enone in HX. rewrite Hdp in HX. inversion HX; subst; clear HX.
+          assert (Hx3 : ext fs1 (fput p (set_path st0 p, ct) (fdel p fs1))).
+          { intros q. rewrite fput_at. unfold fdel. destruct (bytes_eqb q p) eqn:Eq; [|left; reflexivity].
+            apply bytes_eqb_eq in Eq. subst q. right. exists (set_path st0 p, ct), (set_path st0 p, ct). auto. }
+          repeat split; auto. { eapply ext_trans; eauto. }
+          right. split; [reflexivity|]. eapply exist_all_ext; eauto. }
+      apply (Hfin (if repl then remove_target p false (fs p) fs1 else fs1)); [|exact H].
+      destruct repl; [|left; reflexivity].
+      exact (rm_nondir_cases fs (set_path st0 p) ct fs1 H5 Hself Ed).
   - (* not selected *)
+    rewrite andb_false_r in H.
     destruct (st_is_dir st0) eqn:Ed.
     + set (d := {| pd_st := set_path st0 p; pd_ct := ct; pd_dir := dir; pd_copied := false |}) in *.
       destruct (cforest p kids _ _ (S ++ [d]) fs) as [[[fs3 S3] em3] e3] eqn:E3.
@@ -328,9 +373,13 @@ Qed.
 
 Theorem copy_succeeds_proof rootst fs0 :
   compat fs0 -> (forall o, fs0 [] = Some o -> e_dir o = true) ->
-  exists fs' log, copy_sel pmatch c (SrcDir rootst view) fs0 = (fs', log, None).
+  exists fs' log, copy_sel pmatch c repl (SrcDir rootst view) fs0 = (fs', log, None).
 Proof.
   intros HG Hroot. cbn [copy_sel]. unfold copy_dir_top.
+  assert (Hr0 : (if repl then remove_target [] true (fs0 []) fs0 else fs0) = fs0).
+  { destruct repl; [|reflexivity]. unfold remove_target. destruct (fs0 []) as [o|] eqn:E; [|reflexivity].
+    rewrite (Hroot o eq_refl). reflexivity. }
+  rewrite Hr0. cbv beta iota zeta.
   assert (Hw : forallb wf_tree_node view = true).
   { unfold wf_tree in Hwf. apply andb_true_iff in Hwf. tauto. }
   assert (HF : Forall succ_node view) by (apply Forall_forall; intros n _; apply succ_node_all).
